@@ -567,6 +567,9 @@ def replay(verdict, items, builds, sigfn=None, w2c2_flags=("-O1",), workdir=None
     """items -> TLC expected -> for each build config (name, cc, cflags, extra_defs, w2c2_opts)
     actual -> compare.  Deviations go to verdict with signature sigfn(item, k, reason, build).
     Returns statistics for the evidence file."""
+    ids = [it["id"] for it in items]
+    if len(set(ids)) != len(ids):
+        raise MachineryError("scenario ids are not unique: %s" % sorted({i for i in ids if ids.count(i) > 1})[:5])
     wd = workdir or scratch("replay-")
     try:
         import time as _t
